@@ -46,6 +46,7 @@ EXTENDS Integers, Sequences, FiniteSets, TLC
 
 NoneMark == 99           \* absent slice field (the harness never uses 99 as an index)
 MaskedV  == -1           \* a masked element
+NoneElem == -2           \* Python's None WRITTEN as an element (an ordinary, unmasked value)
 
 ---------------------------------------------------------------------------
 (* arithmetic on shapes; row-major (C order) linear indices, as shape_to_strides *)
@@ -95,7 +96,7 @@ WellFormed(G)    == /\ WellFormedBasic(G)
 ---------------------------------------------------------------------------
 (* values *)
 Missing        == [shape |-> <<>>, data |-> <<MaskedV>>]
-IsBlock(G, v)  == v.shape = G.internal /\ Len(v.data) = Prod(G.internal) /\ \A i \in DOMAIN v.data : v.data[i] > 0
+IsBlock(G, v)  == v.shape = G.internal /\ Len(v.data) = Prod(G.internal) /\ \A i \in DOMAIN v.data : v.data[i] > 0 \/ v.data[i] = NoneElem
 AllMissing(G)  == [p \in IndexSet(G.shape) |-> Missing]
 NewState(G)    == [w |-> AllMissing(G), p |-> AllMissing(G)]
 
@@ -246,7 +247,7 @@ LawCells(G, w) ==
             r == GetItem(G, w, IntKey(p))
         IN  /\ r.exc = "" /\ r.shape = <<>>
             /\ (b = Missing) => r.data = <<MaskedV>>
-            /\ (b # Missing) => r.data = <<b.data[Lin(IntOf(G, p), G.internal) + 1]>> /\ r.data[1] > 0
+            /\ (b # Missing) => r.data = <<b.data[Lin(IntOf(G, p), G.internal) + 1]>> /\ (r.data[1] > 0 \/ r.data[1] = NoneElem)
 
 (* a negative integer addresses the same element as its non-negative equivalent *)
 LawNegative(G, w) ==
